@@ -14,6 +14,15 @@
 //!   xini rew <ver> <auth> <idx> <ninit> <prog22 native freeze tlv badge>
 //!       initialize_reward (ver 1) / initialize_reward_v2 (ver 2) for reward index <idx> on a pool whose first
 //!       <ninit> rewards are initialized; the reward mint as in family xinit
+//!   xini cext <auth> <pre>
+//!       initialize_config_extension (the config's fee authority signs / a stranger / nobody; address free or taken)
+//!   xini badge <auth> <feature> <pre> <ext>
+//!       initialize_token_badge; feature: the config's TOKEN_BADGE flag; ext 0 this config's extension · 1 the
+//!       extension of ANOTHER config (whose badge authority then signs)
+//!   xini dbadge <auth> <feature> <exists>
+//!       delete_token_badge
+//!   xini pool1 <ts> <tierTs> <price> <order> <fee> <proto> <p22a> <p22b>
+//!       initialize_pool (v1: SPL Token mints only, vaults created by Anchor's init)
 //! Oracles (independent of the model): whatever gets created carries in-bound rates / valid constants / a valid
 //! start index / an admissible mint, was authorised by the right signer, records what it was created with, and a
 //! refused instruction changes nothing.
@@ -267,6 +276,20 @@ impl Family for XIni {
     }
     fn gen(&self, r: &mut Rng, _idx: u64) -> String {
         let auth = r.pick(&[0u8, 0, 0, 0, 0, 0, 0, 1, 2]);
+        match r.below(14) {
+            10 => return format!("xini cext {} {}", auth, b(r.chance(1, 8))),
+            11 => return format!("xini badge {} {} {} {}", auth, b(r.chance(4, 5)), b(r.chance(1, 10)), b(r.chance(1, 8))),
+            12 => return format!("xini dbadge {} {} {}", auth, b(r.chance(4, 5)), b(r.chance(5, 6))),
+            13 => {
+                let ts = r.pick(&[1u64, 8, 64, 128, 32896]);
+                let price = match r.below(6) {
+                    0 => r.pick(&[4295048015u128, 4295048016, 79226673515401279992447579055, 79226673515401279992447579056]),
+                    _ => r.sqrt_price(),
+                };
+                return format!("xini pool1 {} {} {} {} {} {} {} {}", ts, if r.chance(1, 10) { 65 } else { ts }, price, r.pick(&[0u8, 0, 0, 0, 0, 0, 1, 2]), r.pick(&[0u64, 3000, 60000, 60000, 60001]), r.pick(&[0u64, 300, 2500, 2501]), b(r.chance(1, 8)), b(r.chance(1, 8)));
+            }
+            _ => {}
+        }
         match r.below(10) {
             0 => format!("xini cfg {} {}", b(r.chance(3, 4)), r.pick(&[0u64, 300, 2499, 2500, 2500, 2501, 65535])),
             1 | 2 => format!("xini tier {} {} {} {}", auth, b(r.chance(1, 8)), r.pick(&[0u64, 1, 8, 64, 128, 32896, 65535]), r.pick(&[0u64, 100, 3000, 59999, 60000, 60000, 60001, 65535])),
@@ -537,6 +560,198 @@ impl XIni {
                     ctx.viol("C15 the reward vault is not a token account of the reward mint owned by the pool".to_string());
                 }
                 format!("ok {}", idx)
+            }
+            "cext" => {
+                let auth: u8 = t[2].parse().unwrap();
+                let pre = pb(t[3]);
+                let mut w = world(64, 0);
+                let pda = Pubkey::find_program_address(&[b"config_extension", w.cfg.as_ref()], &pid).0;
+                if pre {
+                    let mut d = vec![];
+                    WhirlpoolsConfigExtension { whirlpools_config: w.cfg, config_extension_authority: k(0xFB, 7), token_badge_authority: k(0xFB, 8) }.try_serialize(&mut d).unwrap();
+                    d.resize(WhirlpoolsConfigExtension::LEN, 0);
+                    w.bank.set(pda, pid, 5_000_000, d);
+                }
+                let signer_key = if auth == 1 { w.stranger } else { w.fee_auth };
+                let acc = ::whirlpool::accounts::InitializeConfigExtension { config: w.cfg, config_extension: pda, funder: w.funder, fee_authority: signer_key, system_program: sysid };
+                let mut metas: Vec<Meta> = acc.to_account_metas(None).iter().map(Meta::from).collect();
+                if auth == 2 {
+                    unsign(&mut metas, &signer_key);
+                }
+                let data = ::whirlpool::instruction::InitializeConfigExtension {}.data();
+                let before = w.bank.clone();
+                let (res, out) = w.bank.execute(&metas, &data);
+                if let Some(s) = finish(&w, &before, &res, &out, ctx, "cext") {
+                    return s;
+                }
+                ctx.nontrivial(line);
+                if auth != 0 || pre {
+                    ctx.viol(format!("C04 a config extension was created without the fee authority signing or over an existing one (mode {}, taken {})", auth, pre));
+                }
+                let e = WhirlpoolsConfigExtension::try_deserialize(&mut &w.bank.data(&pda)[..]).unwrap();
+                if e.whirlpools_config != w.cfg || e.config_extension_authority != w.fee_auth || e.token_badge_authority != w.fee_auth {
+                    ctx.viol("the created config extension does not name its config and the fee authority as both authorities".to_string());
+                }
+                "ok".to_string()
+            }
+            "badge" | "dbadge" => {
+                let delete = t[1] == "dbadge";
+                let auth: u8 = t[2].parse().unwrap();
+                let feature = pb(t[3]);
+                let third = pb(t[4]);
+                let other_ext = !delete && pb(t[5]);
+                let mut w = world(64, 0);
+                // this config with / without the TOKEN_BADGE feature; extensions of this and of another config
+                {
+                    let mut c = WhirlpoolsConfig::try_deserialize(&mut &w.bank.data(&w.cfg)[..]).unwrap();
+                    c.feature_flags = if feature { 1 } else { 0 };
+                    let mut d = vec![];
+                    c.try_serialize(&mut d).unwrap();
+                    d.resize(WhirlpoolsConfig::LEN, 0);
+                    w.bank.set(w.cfg, pid, 10_000_000, d);
+                }
+                let (badge_auth, other_auth) = (k(0xFB, 8), k(0xFB, 9));
+                for kk in [badge_auth, other_auth] {
+                    w.bank.set(kk, sysid, 1_000_000, vec![]);
+                }
+                let cfg2 = k(0xF0, 2);
+                let ext_of = |c: &Pubkey| Pubkey::find_program_address(&[b"config_extension", c.as_ref()], &pid).0;
+                for (c, a) in [(w.cfg, badge_auth), (cfg2, other_auth)] {
+                    let mut d = vec![];
+                    WhirlpoolsConfigExtension { whirlpools_config: c, config_extension_authority: k(0xFB, 7), token_badge_authority: a }.try_serialize(&mut d).unwrap();
+                    d.resize(WhirlpoolsConfigExtension::LEN, 0);
+                    w.bank.set(ext_of(&c), pid, 5_000_000, d);
+                }
+                let mint = k(0xFC, 1);
+                w.bank.set(mint, anchor_spl::token::ID, 5_000_000, mint_account(false, false, &[]));
+                let badge = Pubkey::find_program_address(&[b"token_badge", w.cfg.as_ref(), mint.as_ref()], &pid).0;
+                if third {
+                    // badge: the address is taken; dbadge: the badge exists
+                    let mut d = vec![];
+                    TokenBadge { whirlpools_config: w.cfg, token_mint: mint, attribute_require_non_transferable_position: false }.try_serialize(&mut d).unwrap();
+                    d.resize(TokenBadge::LEN, 0);
+                    w.bank.set(badge, pid, 5_000_000, d);
+                }
+                let right = if other_ext { other_auth } else { badge_auth };
+                let signer_key = if auth == 1 { w.stranger } else { right };
+                let ext = if other_ext { ext_of(&cfg2) } else { ext_of(&w.cfg) };
+                let (mut metas, data): (Vec<Meta>, Vec<u8>) = if delete {
+                    let acc = ::whirlpool::accounts::DeleteTokenBadge { whirlpools_config: w.cfg, whirlpools_config_extension: ext, token_badge_authority: signer_key, token_mint: mint, token_badge: badge, receiver: w.funder };
+                    (acc.to_account_metas(None).iter().map(Meta::from).collect(), ::whirlpool::instruction::DeleteTokenBadge {}.data())
+                } else {
+                    let acc = ::whirlpool::accounts::InitializeTokenBadge { whirlpools_config: w.cfg, whirlpools_config_extension: ext, token_badge_authority: signer_key, token_mint: mint, token_badge: badge, funder: w.funder, system_program: sysid };
+                    (acc.to_account_metas(None).iter().map(Meta::from).collect(), ::whirlpool::instruction::InitializeTokenBadge {}.data())
+                };
+                if auth == 2 {
+                    unsign(&mut metas, &signer_key);
+                }
+                let before = w.bank.clone();
+                let (res, out) = w.bank.execute(&metas, &data);
+                if let Some(s) = finish(&w, &before, &res, &out, ctx, t[1]) {
+                    return s;
+                }
+                ctx.nontrivial(line);
+                if auth != 0 {
+                    ctx.viol(format!("C04/C19 a token badge was {} without the config's token-badge authority signing (mode {})", if delete { "deleted" } else { "issued" }, auth));
+                }
+                if other_ext {
+                    ctx.viol("C19/C15 a token badge of this config was issued under the authority of ANOTHER config's extension".to_string());
+                }
+                if !feature {
+                    ctx.viol("C19 a token badge instruction succeeded although the config's TOKEN_BADGE feature is off".to_string());
+                }
+                let a = w.bank.get(&badge);
+                if delete {
+                    if !third || (a.owner == pid && !a.data.is_empty()) {
+                        ctx.viol("delete_token_badge succeeded but there was no badge / the badge is still there".to_string());
+                    }
+                } else {
+                    if third {
+                        ctx.viol("initialize_token_badge succeeded over an existing badge".to_string());
+                    }
+                    match TokenBadge::try_deserialize(&mut &a.data[..]) {
+                        Ok(tb) if a.owner == pid && tb.whirlpools_config == w.cfg && tb.token_mint == mint && !tb.attribute_require_non_transferable_position => {}
+                        _ => ctx.viol("the issued token badge does not name its config and mint".to_string()),
+                    }
+                }
+                "ok".to_string()
+            }
+            "pool1" => {
+                let ts: u16 = t[2].parse().unwrap();
+                let tier_ts: u16 = t[3].parse().unwrap();
+                let price: u128 = t[4].parse().unwrap();
+                let order: u8 = t[5].parse().unwrap();
+                let fee: u16 = t[6].parse().unwrap();
+                let proto: u16 = t[7].parse().unwrap();
+                let (p22a, p22b) = (pb(t[8]), pb(t[9]));
+                let mut w = world(64, 0);
+                {
+                    let mut c = WhirlpoolsConfig::try_deserialize(&mut &w.bank.data(&w.cfg)[..]).unwrap();
+                    c.default_protocol_fee_rate = proto;
+                    let mut d = vec![];
+                    c.try_serialize(&mut d).unwrap();
+                    d.resize(WhirlpoolsConfig::LEN, 0);
+                    w.bank.set(w.cfg, pid, 10_000_000, d);
+                }
+                let tier = k(0xF9, 2);
+                let mut d = vec![];
+                FeeTier { whirlpools_config: w.cfg, tick_spacing: tier_ts, default_fee_rate: fee }.try_serialize(&mut d).unwrap();
+                d.resize(FeeTier::LEN, 0);
+                w.bank.set(tier, pid, 10_000_000, d);
+                let (lo, hi) = (k(0x81, 0x01), k(0x81, 0xFE));
+                let (mint_a, mint_b) = match order {
+                    0 => (lo, hi),
+                    1 => (hi, lo),
+                    _ => (lo, lo),
+                };
+                w.bank.set(mint_a, tokp(p22a), 5_000_000, mint_account(p22a, false, &[]));
+                if order != 2 {
+                    w.bank.set(mint_b, tokp(p22b), 5_000_000, mint_account(p22b, false, &[]));
+                }
+                let p22b = if order == 2 { p22a } else { p22b };
+                let pool = Pubkey::find_program_address(&[b"whirlpool", w.cfg.as_ref(), mint_a.as_ref(), mint_b.as_ref(), &ts.to_le_bytes()], &pid).0;
+                let (va, vb) = (k(0xFD, 1), k(0xFD, 2));
+                let acc = ::whirlpool::accounts::InitializePool {
+                    whirlpools_config: w.cfg,
+                    token_mint_a: mint_a,
+                    token_mint_b: mint_b,
+                    funder: w.funder,
+                    whirlpool: pool,
+                    token_vault_a: va,
+                    token_vault_b: vb,
+                    fee_tier: tier,
+                    token_program: anchor_spl::token::ID,
+                    system_program: sysid,
+                    rent: w.rent_id,
+                };
+                let mut metas: Vec<Meta> = acc.to_account_metas(None).iter().map(Meta::from).collect();
+                for m in metas.iter_mut() {
+                    if m.key == va || m.key == vb {
+                        m.signer = true;
+                    }
+                }
+                let data = ::whirlpool::instruction::InitializePool { bumps: WhirlpoolBumps { whirlpool_bump: 0 }, tick_spacing: ts, initial_sqrt_price: price }.data();
+                let before = w.bank.clone();
+                let (res, out) = w.bank.execute(&metas, &data);
+                if let Some(s) = finish(&w, &before, &res, &out, ctx, "pool1") {
+                    return s;
+                }
+                ctx.nontrivial(line);
+                let ok = order == 0 && price >= 4295048016 && price <= 79226673515401279992447579055 && ts == tier_ts && fee <= 60000 && proto <= 2500 && !p22a && !p22b;
+                if !ok {
+                    ctx.viol(format!("C19 initialize_pool created a pool with out-of-bound / inconsistent parameters (order {}, price {}, spacing {} vs tier {}, fee {}, protocol fee {}, Token-2022 mints {} {})", order, price, ts, tier_ts, fee, proto, p22a, p22b));
+                }
+                let wp = Whirlpool::try_deserialize(&mut &w.bank.data(&pool)[..]).unwrap();
+                if wp.whirlpools_config != w.cfg || wp.token_mint_a != mint_a || wp.token_mint_b != mint_b || wp.token_vault_a != va || wp.token_vault_b != vb || wp.tick_spacing != ts || wp.fee_rate != fee || wp.protocol_fee_rate != proto || { wp.sqrt_price } != price || wp.liquidity != 0 || wp.tick_current_index != ::whirlpool::math::tick_index_from_sqrt_price(&price) {
+                    ctx.viol("C19/C15 the created pool does not record the accounts and parameters it was created with".to_string());
+                }
+                for (v, m) in [(va, mint_a), (vb, mint_b)] {
+                    let a = w.bank.get(&v);
+                    if a.owner != anchor_spl::token::ID || a.data.len() != 165 || a.data[0..32] != m.to_bytes() || a.data[32..64] != pool.to_bytes() {
+                        ctx.viol("C15 a vault of the created pool is not a token account of the pool's mint owned by the pool".to_string());
+                    }
+                }
+                format!("ok {} {} {} {}", wp.fee_rate, wp.protocol_fee_rate, { wp.sqrt_price }, wp.tick_current_index)
             }
             _ => "bad-op".to_string(),
         }
